@@ -262,6 +262,13 @@ struct FlatSetEngine : EngineBase {
         else {
           if (!EI<E>::val(nh->value()).same(want)) violation("C03", "node.extract_value", "extracted node holds another value");
           adopt(nh->value());
+          // node_type::swap with an empty node and back, get_allocator
+          typename Set::node_type other;
+          nh->swap(other);
+          if (!nh->empty() || other.empty()) violation("C03", "node.swap", "node_type::swap did not exchange the values");
+          other.swap(*nh);
+          if (nh->empty() || !EI<E>::val(nh->value()).same(want)) violation("C03", "node.swap", "node_type::swap lost the value");
+          (void)nh->get_allocator();
         }
         ms.erase(mit);
       }
@@ -375,6 +382,19 @@ struct FlatSetEngine : EngineBase {
         break;
       }
       case 3: {
+#if __cplusplus >= 202002L
+        if (rng.chance(1, 2)) {
+          int md = 2 + static_cast<int>(rng.below(3)), rm = static_cast<int>(rng.below(2));
+          set_op("erase_if", st(a), "-", fmt("S%d key%%%d==%d", a, md, rm));
+          size_t r = 0;
+          window([&] { r = erase_if(s, [md, rm](const E &e) { return key_of(e) % md == rm; }); });
+          MonScope mm;
+          size_t er = 0;
+          for (auto it = m.begin(); it != m.end();) if (it->key % md == rm) { it = m.erase(it); ++er; } else ++it;
+          if (!threw && r != er) violation("C03", "model.erase_if_count", fmt("erase_if returned %zu, expected %zu", r, er));
+          break;
+        }
+#endif
         set_op("clear", st(a), "-", fmt("S%d", a));
         window([&] { s.clear(); });
         MonScope mm;
@@ -443,6 +463,34 @@ struct FlatSetEngine : EngineBase {
     if (CmpTransparent<Cmp>::value) {
       set_op("lookup(hetero)", st(a), present ? "present" : "absent", fmt("S%d key=%d", a, k.key));
       hetero(s, m, k.key);
+    }
+    // observers: key_comp()/value_comp() must be copies of the stored comparator (provenance), iterators agree, max_size
+    if (rng.chance(1, 4)) {
+      set_op("observers", st(a), "-", fmt("S%d", a));
+      bool okc = true;
+      E *e1 = make_hold(EI<E>::norm(Val(3, 1)));
+      E *e2;
+      { MonScope mm; e2 = new E(7, 2); }
+      bool kc = false, vc = false, want = false;
+      window([&] {
+        kc = s.key_comp()(*e1, *e2);
+        vc = s.value_comp()(*e1, *e2);
+        unsigned long c1 = 0, c2 = 0, r1 = 0, r2 = 0;
+        for (auto it = s.cbegin(); it != s.cend(); ++it) c1 = c1 * 31u + static_cast<unsigned long>(key_of(*it));
+        for (auto it = s.begin(); it != s.end(); ++it) c2 = c2 * 31u + static_cast<unsigned long>(key_of(*it));
+        for (auto it = s.crbegin(); it != s.crend(); ++it) r1 += static_cast<unsigned long>(key_of(*it));
+        for (auto it = s.rbegin(); it != s.rend(); ++it) r2 += static_cast<unsigned long>(key_of(*it));
+        okc = c1 == c2 && r1 == r2 && static_cast<size_t>(s.max_size()) >= static_cast<size_t>(s.size());
+        (void)s.get_allocator();
+      });
+      {
+        MonScope mm;
+        want = cmp(Val(3, 1), Val(7, 2));
+        delete e2;
+        if (!threw && (kc != want || vc != want)) violation("C03", "model.key_comp", "key_comp()/value_comp() do not order like the comparator the set was constructed with");
+        if (!threw && !okc) violation("C03", "model.observers_disagree", "c-prefixed / reverse iterators or max_size disagree");
+      }
+      drop_hold();
     }
     // element access extras
     if (!m.empty() && rng.chance(1, 3)) {
